@@ -1,4 +1,5 @@
 import Drv.Common
+import DdsModel.Order
 open Lean
 namespace Drv
 open Dds.Scope
@@ -37,5 +38,22 @@ def opScope (j : Json) : R Json := do
   let b ← decStmt (← fld j "body")
   pure (Json.mkObj [("dds", strs (ddsNames ps b)), ("python", strs (pyGlobalReads ps b)), ("old", strs (oldNames ps b)),
     ("bound", strs (boundS b)), ("globals", strs (globalsS b))])
+
+open Dds.Order in
+partial def decCE (j : Json) : R CE := do
+  let t ← fldStr j "t"
+  match t with
+  | "atom" => pure .atom
+  | "call" => pure (.call (← fldNat j "id") (← decCE (← fld j "func")) (← decCE (← fld j "args")))
+  | "pair" => pure (.pair (← decCE (← fld j "a")) (← decCE (← fld j "b")))
+  | _ => .error s!"bad call-expression tag {t}"
+
+def nats (l : List Nat) : Json := .arr (l.map (fun n => Json.num (JsonNumber.fromNat n))).toArray
+
+/-- {"op":"order","e":call-expression} -/
+def opOrder (j : Json) : R Json := do
+  let e ← decCE (← fld j "e")
+  pure (Json.mkObj [("dds", nats (Dds.Order.ddsOrder e)), ("python", nats (Dds.Order.pyOrder e)), ("old", nats (Dds.Order.oldOrder e)),
+    ("simple", .bool (Dds.Order.funcSimple e))])
 
 end Drv
